@@ -3,6 +3,7 @@
 //@ item! src/transactions.rs :: enum Op
 //@ item! src/transactions.rs :: struct RepLog
 //@ include spec/overlay.rs
+//@ include spec/merge.rs
 
 //@ item! src/transactions.rs :: struct StorageTransaction
 
@@ -95,3 +96,66 @@ pub fn tx_as_dyn_mut<'a, 'b>(x: &'a mut StorageTransaction<'b>) -> (r: &'a mut d
 }
 
 //@ include contracts/transactional_only.rs
+
+// ------------------------------------------------------------------ MergeOverlay: the merge of local deltas and base records
+//@ item! src/transactions.rs :: type BTreeMapPairRef
+//@ item src/transactions.rs :: struct MergeOverlay
+//@   attr #[verifier::reject_recursive_types(L)]
+//@   attr #[verifier::reject_recursive_types(R)]
+//@ end
+pub open spec fn lview(s: Seq<(&Vec<u8>, &Delta)>) -> Seq<LItem> { Seq::new(s.len(), |i: int| (s[i].0@, dview(*s[i].1))) }
+// the iterator law: `r` is the first element of `pre` (None iff `pre` is empty) and `post` is what remains
+pub open spec fn pop_law(pre: Seq<RecV>, r: Option<Record>, post: Seq<RecV>) -> bool {
+    match r { Some(x) => pre.len() > 0 && (x.0@, x.1@) == pre[0] && post == pre.drop_first(), None => pre.len() == 0 && post.len() == 0 }
+}
+pub proof fn lemma_lview_drop(s: Seq<(&Vec<u8>, &Delta)>)
+    requires s.len() > 0
+    ensures lview(s.drop_first()) == lview(s).drop_first(), lview(s)[0] == (s[0].0@, dview(*s[0].1))
+{
+    assert(lview(s.drop_first()) =~= lview(s).drop_first());
+}
+pub proof fn lemma_recs_drop(s: Seq<Record>)
+    requires s.len() > 0
+    ensures recs_view(s.drop_first()) == recs_view(s).drop_first(), recs_view(s)[0] == (s[0].0@, s[0].1@)
+{
+    assert(recs_view(s.drop_first()) =~= recs_view(s).drop_first());
+}
+
+//@ impl_open src/transactions.rs :: MergeOverlay
+//@ end
+    pub open spec fn lrem(&self) -> Seq<LItem> { lview(pk_rem(&self.left)) }
+    pub open spec fn rrem(&self) -> Seq<RecV> { recs_view(pk_rem(&self.right)) }
+    // what the merged iterator has still to yield
+    pub open spec fn rem(&self) -> Seq<RecV> { merge(self.lrem(), self.rrem(), self.order) }
+//@ fn src/transactions.rs :: MergeOverlay :: new
+//@   ret r
+//@   replace_re "(?P<X>left|right)\\.peekable\\(\\)" => "vx_peekable(\\g<X>)"
+//@   ensures [C06.merge.new,C10] r.lrem() == lview(left.remaining()) && r.rrem() == recs_view(right.remaining()) && r.order == order
+//@ end
+//@ fn src/transactions.rs :: MergeOverlay :: pick_match
+//@   ret r
+//@   requires [C06.merge.pick_pre] old(self).lrem().len() > 0 && old(self).rrem().len() > 0 && lkey@ == old(self).lrem()[0].0 && rkey@ == old(self).rrem()[0].0
+//@   ensures [C06.merge.pick_law,C10] pop_law(old(self).rem(), r, final(self).rem()) && final(self).order == old(self).order
+//@   decreases old(self).lrem().len() + old(self).rrem().len(), 1int
+//@   begin proof { axiom_vec_u8_cmp_lex(); lemma_lex_total(lkey@, rkey@); lemma_recs_drop(pk_rem(&self.right)); if lex_lt(lkey@, rkey@) { lemma_lex_asym(lkey@, rkey@); } if lex_lt(rkey@, lkey@) { lemma_lex_asym(rkey@, lkey@); } lemma_lex_irrefl(lkey@); let l = self.lrem(); let r0 = self.rrem(); let m = merge(l, r0, self.order); if ord_lt(l[0].0, r0[0].0, self.order) { assert(m == emit(l[0]) + merge(l.drop_first(), r0, self.order)); } else if l[0].0 == r0[0].0 { assert(m == emit(l[0]) + merge(l.drop_first(), r0.drop_first(), self.order)); } else { assert(m == seq![r0[0]] + merge(l, r0.drop_first(), self.order)); assert(m.drop_first() =~= merge(l, r0.drop_first(), self.order)); } }
+//@ end
+//@ fn src/transactions.rs :: MergeOverlay :: take_left
+//@   ret r
+//@   requires [C06.merge.take_pre] old(self).lrem().len() > 0
+//@   ensures [C06.merge.take_law,C10] pop_law(emit(old(self).lrem()[0]) + merge(old(self).lrem().drop_first(), old(self).rrem(), old(self).order), r, final(self).rem()) && final(self).order == old(self).order
+//@   decreases old(self).lrem().len() + old(self).rrem().len(), 0int
+//@   begin broadcast use axiom_vec_u8_ext_b; proof { lemma_lview_drop(pk_rem(&self.left)); }
+//@   before "re:^\\s*match lval \\{\\s*$" proof { let pre = emit(old(self).lrem()[0]) + merge(old(self).lrem().drop_first(), old(self).rrem(), old(self).order); assert(self.lrem() == old(self).lrem().drop_first()); assert(self.rrem() == old(self).rrem()); assert(old(self).lrem()[0] == (lkey@, dview(*lval))); match lval { Delta::Set { value } => { assert(pre =~= seq![(lkey@, value@)] + self.rem()); assert(pre.drop_first() =~= self.rem()); }, Delta::Delete {} => { assert(pre =~= self.rem()); } } }
+//@ end
+}
+//@ impl_open src/transactions.rs :: Iterator for MergeOverlay
+//@   replace_re "impl<'a, L, R> Iterator for MergeOverlay<'a, L, R>" => "impl<'a, L, R> MergeOverlay<'a, L, R>"
+//@ end
+//@ fn src/transactions.rs :: Iterator for MergeOverlay :: next
+//@   ret r
+//@   replace "Option<Self::Item>" => "Option<Record>"
+//@   ensures [C06.merge.next_law,C10] pop_law(old(self).rem(), r, final(self).rem()) && final(self).order == old(self).order
+//@   decreases old(self).lrem().len() + old(self).rrem().len(), 2int
+//@   begin proof { if pk_rem(&self.left).len() > 0 { lemma_lview_drop(pk_rem(&self.left)); } if pk_rem(&self.right).len() > 0 { lemma_recs_drop(pk_rem(&self.right)); } }
+//@ end
+}
